@@ -2,17 +2,24 @@
 
 package linkedlog
 
-import "github.com/rpcpool/yellowstone-faithful/indexes"
+import (
+	"encoding/binary"
+
+	"github.com/rpcpool/yellowstone-faithful/indexes"
+)
 
 // C06.frame — writer/reader agreement on the length prefix of a linked-log record.
 // Writer side (LinkedLog.Put): payloadLen = len(compressed)+9, prefix = uvarint(payloadLen),
 // callbackAfter records total = len(prefix)+payloadLen. Reader side (ReadWithSize(offset,total)):
 // skips sizeOfLengthPrefix(total) bytes and reads the remaining bytes.
+// The writer's prefix is the format's uvarint (encoding/binary); the real Put (whatever helper it
+// uses to produce the prefix) is driven end to end by C06.record and C12.linkedlog.varint, so this
+// lemma does not name the writer's private helper and survives its replacement.
 func VerifC06Frame() {
 	L := verifU64("compressedLen")
 	verifAssume(L < 1<<28) // stated bound
 	payloadLen := L + indexes.IndexValueSize_CidToOffsetAndSize
-	prefix := encodeUvarint(payloadLen) // real code
+	prefix := binary.AppendUvarint(nil, payloadLen) // the format: uvarint length prefix
 	total := uint64(len(prefix)) + payloadLen
 	readerSkip := uint64(sizeOfLengthPrefix(total)) // real code, as ReadWithSize uses it
 	readerLen := total - readerSkip
